@@ -99,6 +99,9 @@ def record_baseline():
     from props.registry import PROPS
     funcs = sorted({f for P in PROPS.values() for f in P.get("functions", [])})
     res = run_deductive(funcs, "quick")
+    from pyvc import structural
+    for P in PROPS.values():
+        res += structural.run_all(P.get("structural", []))
     out = {}
     bad = 0
     for r in res:
@@ -158,6 +161,9 @@ def check_property(pid, tier):
 
     # ---------------- deductive layer
     results = run_deductive(P.get("functions", []), tier)
+    if P.get("structural"):
+        from pyvc import structural
+        results += structural.run_all(P["structural"])
     n_obl = n_dis = 0
     backends, solver_ms = {}, 0.0
     samples, trusted, funcs_uc, dead = [], set(), [], []
